@@ -1,5 +1,563 @@
-//! C15 harness — to be written (see /verif/mc/HARNESS_GUIDE.md).
+//! C15 — evaluation metrics equal their textbook definitions.
+//!
+//! E1 over inputs only (the metrics draw no random numbers): every pair of vectors over small
+//! sharp alphabets up to a length bound, plus complete structured families up to length 200.
+//! Oracles are the definitions evaluated on exact integer counts (refs.rs).
+
+mod cases;
+mod refs;
+
+use cases::*;
+use mc_core::{self as mc, json, Harness, Job, Plan, Tier, Value};
+use refs::*;
+
+struct C15;
+
+/// Choice source of one execution: the first choices may be fixed by the job (`pre`, used to cut a
+/// large product space into many jobs), the rest are asked from the explorer.
+struct Chs {
+    pre: Vec<usize>,
+    pos: usize,
+}
+
+impl Chs {
+    fn new(job: &Job) -> Chs {
+        let pre = job.params["pre"].as_array().map(|a| a.iter().map(|v| v.as_u64().unwrap() as usize).collect()).unwrap_or_default();
+        Chs { pre, pos: 0 }
+    }
+    fn next(&mut self, n: usize) -> usize {
+        let i = self.pos;
+        self.pos += 1;
+        if i < self.pre.len() {
+            assert!(self.pre[i] < n, "job prefix out of range");
+            self.pre[i]
+        } else {
+            mc::choose(n)
+        }
+    }
+}
+
+/// Push jobs for a product space with the given radices (in choice order), fixing as many leading
+/// choices in the job parameters as needed to keep every job at or below `cap` executions.
+fn push_split(jobs: &mut Vec<Job>, name: &str, base: Value, radices: &[usize], cap: u64) {
+    let mut p = 0;
+    let tail = |p: usize| radices[p..].iter().fold(1u64, |a, r| a.saturating_mul(*r as u64));
+    while p < radices.len() && tail(p) > cap {
+        p += 1;
+    }
+    let mut pre = vec![0usize; p];
+    loop {
+        let mut params = base.clone();
+        params["pre"] = json!(pre);
+        let suffix: String = if p == 0 { String::new() } else { format!("-p{}", pre.iter().map(|d| d.to_string()).collect::<Vec<_>>().join(".")) };
+        jobs.push(Job::new(format!("{}{}", name, suffix), params));
+        // odometer over the prefix
+        let mut i = p;
+        loop {
+            if i == 0 {
+                return;
+            }
+            i -= 1;
+            pre[i] += 1;
+            if pre[i] < radices[i] {
+                break;
+            }
+            pre[i] = 0;
+        }
+    }
+}
+
+// ---- alphabets (simplest first) and their seed variants -------------------------------------------
+
+const Q4: [f64; 4] = [0.0, 0.25, 0.5, 1.0];
+const T3: [f64; 3] = [0.0, 1.0, 2.0];
+const REG: [i64; 4] = [0, 1, -2, 3];
+/// VERIF_SEED selects which finite space is enumerated: an affine change of the score alphabet
+/// (order-preserving or order-reversing), a shift of the regression alphabet, an offset of the
+/// cluster label values. Seed 0 is the plain alphabet.
+const SEED_SCORE: [(f64, f64); 8] = [(1.0, 0.0), (1.0, 1.0), (-1.0, 0.0), (3.0, -1.0), (0.5, 0.25), (-2.0, 5.0), (1e3, 0.0), (1e-3, 0.0)];
+const SEED_REG_SHIFT: [i64; 8] = [0, 1, -1, 5, -7, 10, 100, -100];
+const SEED_LABEL_OFFSET: [i64; 8] = [0, 1, -1, 10, -10, 1000, -1000, 1 << 33];
+
+fn score_alpha(id: usize, seed: u64) -> Vec<f64> {
+    let (m, a) = SEED_SCORE[(seed % 8) as usize];
+    let base: &[f64] = if id == 0 { &Q4 } else { &T3 };
+    base.iter().map(|x| m * x + a).collect()
+}
+
+fn offset_map(m: &[i64; 8], seed: u64) -> [i64; 8] {
+    let o = SEED_LABEL_OFFSET[(seed % 8) as usize];
+    let mut r = *m;
+    r.iter_mut().for_each(|x| *x += o);
+    r
+}
+
+// ---- executions -----------------------------------------------------------------------------------
+
+fn run_bin(job: &Job) {
+    let n = job.u("n");
+    let mut ch = Chs::new(job);
+    let yt: Vec<u8> = (0..n).map(|_| ch.next(2) as u8).collect();
+    let yp: Vec<u8> = (0..n).map(|_| ch.next(2) as u8).collect();
+    let o64 = binary_case::<f64>(&yt, &yp, &String::new);
+    let o32 = binary_case::<f32>(&yt, &yp, &String::new);
+    mc::count("binary_pairs");
+    mc::nontrivial();
+    mc::outcome(mc::hash::mix(mc::hash::h_f64s(&o64), mc::hash::h_f64s(&o32)));
+    mc::describe(|| json!({"op": "accuracy/precision/recall/f1(beta=1,0.5,2)", "y_true": yt, "y_pred": yp, "library_f64": o64.iter().map(|x| format!("{}", x)).collect::<Vec<_>>()}));
+}
+
+fn run_conf(job: &Job) {
+    let n = job.u("n") as u64;
+    let tp = mc::choose(n as usize + 1) as u64;
+    let fp = mc::choose((n - tp) as usize + 1) as u64;
+    let fn_ = mc::choose((n - tp - fp) as usize + 1) as u64;
+    let layout = mc::choose(3);
+    let cf = Conf { tp, fp, fn_, tn: n - tp - fp - fn_ };
+    let (yt, yp) = expand_conf(cf, layout);
+    let origin = || format!(" [confusion counts expanded with layout {}]", ["blocked", "blocked-reversed", "interleaved"][layout]);
+    let o64 = binary_case::<f64>(&yt, &yp, &origin);
+    let o32 = binary_case::<f32>(&yt, &yp, &origin);
+    mc::count("binary_by_confusion_counts");
+    if tp + fn_ == 1 || fp + cf.tn == 1 {
+        mc::count("binary_single_positive_or_negative");
+    }
+    mc::nontrivial();
+    mc::outcome(mc::hash::mix(mc::hash::h_f64s(&o64), mc::hash::h_f64s(&o32)));
+    mc::describe(|| json!({"op": "accuracy/precision/recall/f1 by confusion counts", "n": n, "tp": tp, "fp": fp, "fn": fn_, "tn": cf.tn, "layout": layout, "library_f64": o64.iter().map(|x| format!("{}", x)).collect::<Vec<_>>()}));
+}
+
+fn run_acc3(job: &Job) {
+    let n = job.u("n");
+    let seed = job.params["seed"].as_u64().unwrap_or(0);
+    let values = offset_map(&RENAMINGS[if seed == 0 { 0 } else { 1 }].1, seed);
+    let mut ch = Chs::new(job);
+    let yt: Vec<f64> = (0..n).map(|_| values[ch.next(3)] as f64).collect();
+    let yp: Vec<f64> = (0..n).map(|_| values[ch.next(3)] as f64).collect();
+    let a = accuracy_case::<f64>(&yt, &yp);
+    let b = accuracy_case::<f32>(&yt, &yp);
+    mc::count("accuracy_multiclass_pairs");
+    mc::nontrivial();
+    mc::outcome(mc::hash::h_f64s(&[a, b]));
+    mc::describe(|| json!({"op": "accuracy (3 classes)", "y_true": yt, "y_pred": yp, "library": a}));
+}
+
+const MISMATCH_LENGTHS: [usize; 13] = [0, 1, 2, 3, 4, 5, 6, 7, 8, 9, 16, 64, 200];
+
+fn run_mismatch(_job: &Job) {
+    let n1 = mc::pick(&MISMATCH_LENGTHS);
+    let n2 = mc::pick(&MISMATCH_LENGTHS);
+    let pat = mc::choose(3);
+    if n1 == n2 {
+        mc::count("mismatch_equal_lengths_skipped");
+        return;
+    }
+    let gen = |n: usize, flip: bool| -> Vec<f64> {
+        (0..n)
+            .map(|i| match pat {
+                0 => flip as u8 as f64,
+                1 => 1.0 - flip as u8 as f64,
+                _ => ((i % 2 == 0) ^ flip) as u8 as f64,
+            })
+            .collect()
+    };
+    let (a, b) = (gen(n1, false), gen(n2, pat == 2));
+    let r64 = mismatch_case::<f64>(&a, &b);
+    let r32 = mismatch_case::<f32>(&a, &b);
+    mc::count("mismatch_pairs");
+    mc::nontrivial();
+    mc::outcome(mc::hash::h_u64s(&[r64, r32]));
+    mc::describe(|| json!({"op": "length mismatch on the seven pairwise metrics", "len_true": n1, "len_pred": n2, "pattern": pat, "rejected_bitmask_f64": r64}));
+}
+
+fn auc_both(labels: &[u8], scores: &[f64], with_f32: bool, origin: &dyn Fn() -> String) {
+    let n = labels.len();
+    let pos = labels.iter().filter(|l| **l == 1).count();
+    if pos == 0 || pos == n {
+        mc::count("auc_single_class_outside_domain");
+        return;
+    }
+    let v = auc_case::<f64>(labels, scores, origin);
+    let w = if with_f32 { auc_case::<f32>(labels, scores, origin) } else { 0.0 };
+    match tie_class(scores) {
+        TieClass::Constant => mc::count("auc_constant_scores"),
+        TieClass::Tied => mc::count("auc_tied_scores"),
+        TieClass::Distinct => mc::count("auc_distinct_scores"),
+    }
+    if n >= 8 {
+        mc::count("auc_quicksort_partition_path");
+    }
+    if pos == 1 || pos == n - 1 {
+        mc::count("auc_single_positive_or_negative");
+    }
+    mc::nontrivial();
+    mc::outcome(mc::hash::h_f64s(&[v, w]));
+    mc::describe(|| json!({"op": "roc_auc_score", "y_true": labels, "scores": scores, "library": v}));
+}
+
+fn run_auc(job: &Job) {
+    let n = job.u("n");
+    let alpha = score_alpha(job.u("alpha"), job.params["seed"].as_u64().unwrap_or(0));
+    let mut ch = Chs::new(job);
+    let scores: Vec<f64> = (0..n).map(|_| alpha[ch.next(alpha.len())]).collect();
+    let labels: Vec<u8> = (0..n).map(|_| ch.next(2) as u8).collect();
+    auc_both(&labels, &scores, job.b("f32"), &String::new);
+}
+
+fn run_aucperm(job: &Job) {
+    let n = job.u("n");
+    let (m, a) = SEED_SCORE[(job.params["seed"].as_u64().unwrap_or(0) % 8) as usize];
+    let mut ch = Chs::new(job);
+    // Lehmer code → permutation of 0..n
+    let mut rest: Vec<usize> = (0..n).collect();
+    let scores: Vec<f64> = (0..n).map(|i| m * rest.remove(ch.next(n - i)) as f64 + a).collect();
+    let labels: Vec<u8> = (0..n).map(|_| ch.next(2) as u8).collect();
+    auc_both(&labels, &scores, job.b("f32"), &String::new);
+}
+
+fn run_aucs(job: &Job) {
+    let n = job.u("n");
+    let fam = mc::choose(N_SCORE_FAMILIES);
+    let tr = mc::choose(N_SCORE_TRANSFORMS);
+    let kind = mc::choose(N_LABEL_KINDS);
+    let param = mc::choose(label_params(kind, n));
+    let scores: Vec<f64> = (0..n).map(|i| score_transform(tr, n, score_family(fam, n, i))).collect();
+    let labels = label_family(kind, param, &scores);
+    let origin = || format!(" [n={} scores: family {} transform {}; labels: {} param {}]", n, SCORE_FAMILY_NAMES[fam], SCORE_TRANSFORM_NAMES[tr], LABEL_KIND_NAMES[kind], param);
+    auc_both(&labels, &scores, true, &origin);
+    mc::describe(|| json!({"n": n, "score_family": SCORE_FAMILY_NAMES[fam], "score_transform": SCORE_TRANSFORM_NAMES[tr], "label_family": LABEL_KIND_NAMES[kind], "label_param": param}));
+}
+
+fn run_reg(job: &Job) {
+    let n = job.u("n");
+    let shift = SEED_REG_SHIFT[(job.params["seed"].as_u64().unwrap_or(0) % 8) as usize];
+    let scale = SCALES[job.u("scale")];
+    let mut ch = Chs::new(job);
+    let a: Vec<i64> = (0..n).map(|_| REG[ch.next(4)] + shift).collect();
+    let b: Vec<i64> = (0..n).map(|_| REG[ch.next(4)] + shift).collect();
+    let o64 = regression_case::<f64>(&a, &b, scale, &String::new);
+    let o32 = regression_case::<f32>(&a, &b, scale, &String::new);
+    mc::count("regression_pairs");
+    mc::nontrivial();
+    mc::outcome(mc::hash::mix(mc::hash::h_f64s(&o64), mc::hash::h_f64s(&o32)));
+    mc::describe(|| json!({"op": "mse/mae/r2", "y_true": a, "y_pred": b, "scale": scale, "library_f64": {"mse": format!("{}", o64[0]), "mae": format!("{}", o64[1]), "r2": format!("{}", o64[2])}}));
+}
+
+fn run_regs(job: &Job) {
+    let n = job.u("n");
+    let ft = mc::choose(N_TRUTH_FAMILIES);
+    let fp = mc::choose(N_PRED_FAMILIES);
+    let sc = mc::choose(SCALES.len());
+    let a: Vec<i64> = (0..n).map(|i| truth_family(ft, n, i)).collect();
+    let b: Vec<i64> = (0..n).map(|i| pred_family(fp, &a, i)).collect();
+    let origin = || format!(" [n={} truth family '{}', prediction family '{}', scale {}]", n, TRUTH_FAMILY_NAMES[ft], PRED_FAMILY_NAMES[fp], SCALE_NAMES[sc]);
+    let o64 = regression_case::<f64>(&a, &b, SCALES[sc], &origin);
+    let o32 = regression_case::<f32>(&a, &b, SCALES[sc], &origin);
+    mc::count("regression_structured");
+    mc::nontrivial();
+    mc::outcome(mc::hash::mix(mc::hash::h_f64s(&o64), mc::hash::h_f64s(&o32)));
+    mc::describe(|| json!({"op": "mse/mae/r2 structured", "n": n, "truth": TRUTH_FAMILY_NAMES[ft], "prediction": PRED_FAMILY_NAMES[fp], "scale": SCALE_NAMES[sc], "library_f64": {"mse": format!("{}", o64[0]), "mae": format!("{}", o64[1]), "r2": format!("{}", o64[2])}}));
+}
+
+const RENAME_PAIRS: [(usize, usize); 2] = [(1, 2), (3, 1)];
+
+fn run_hcv(job: &Job) {
+    let n = job.u("n");
+    let k = job.u("k");
+    let seed = job.params["seed"].as_u64().unwrap_or(0);
+    let (mt, mp) = (offset_map(&RENAMINGS[0].1, seed), offset_map(&RENAMINGS[0].1, seed));
+    let mut ch = Chs::new(job);
+    let ci: Vec<usize> = (0..n).map(|_| ch.next(k)).collect();
+    let ki: Vec<usize> = (0..n).map(|_| ch.next(k)).collect();
+    let out = hcv_case(&ci, &ki, &mt, &mp, &RENAME_PAIRS, n <= 4, &String::new);
+    mc::count("hcv_label_pairs");
+    mc::nontrivial();
+    mc::outcome(digest_rounded(&out));
+}
+
+/// every a x b contingency table with entries from a small alphabet
+fn run_tab(job: &Job) {
+    let (a, b) = (job.u("a"), job.u("b"));
+    let alpha: Vec<u64> = job.params["cells"].as_array().unwrap().iter().map(|v| v.as_u64().unwrap()).collect();
+    let seed = job.params["seed"].as_u64().unwrap_or(0);
+    let mut ch = Chs::new(job);
+    let t: Vec<Vec<u64>> = (0..a).map(|_| (0..b).map(|_| alpha[ch.next(alpha.len())]).collect()).collect();
+    let layout = ch.next(3);
+    if t.iter().all(|r| r.iter().all(|x| *x == 0)) {
+        mc::count("hcv_empty_table_skipped");
+        return;
+    }
+    let (ci, ki) = expand_table(&t, layout);
+    let (mt, mp) = (offset_map(&RENAMINGS[1].1, seed), offset_map(&RENAMINGS[2].1, seed));
+    let origin = || format!(" [table {:?} expanded with layout {}]", t, ["blocked", "blocked-reversed", "interleaved"][layout]);
+    let out = hcv_case(&ci, &ki, &mt, &mp, &[(0, 3)], false, &origin);
+    mc::count("hcv_tables");
+    mc::nontrivial();
+    mc::outcome(digest_rounded(&out));
+}
+
+const PROD_KINDS: [&str; 6] = ["product r x s (independent)", "identical diag(r)", "refinement (each class split)", "coarsening (each cluster split)", "diag(r) + one off-diagonal sample", "band"];
+const PROD_MULT: [u64; 4] = [1, 2, 3, 7];
+
+/// product (exactly independent), identical, refinement, coarsening, near-identical layouts with 1..8 classes
+fn run_prod(job: &Job) {
+    let (a, b) = (job.u("a"), job.u("b"));
+    let nmax = job.u("nmax") as u64;
+    let seed = job.params["seed"].as_u64().unwrap_or(0);
+    let kind = mc::choose(PROD_KINDS.len());
+    let fr = mc::choose(N_WEIGHT_FAMILIES);
+    let fs = mc::choose(N_WEIGHT_FAMILIES);
+    let m = mc::pick(&PROD_MULT);
+    let layout = mc::choose(3);
+    let (r, s) = (weight_family(fr, a), weight_family(fs, b));
+    let t: Option<Vec<Vec<u64>>> = match kind {
+        0 => Some((0..a).map(|i| (0..b).map(|j| r[i] * s[j] * m).collect()).collect()),
+        1 if a == b => Some((0..a).map(|i| (0..a).map(|j| if i == j { r[i] * m } else { 0 }).collect()).collect()),
+        2 if a * b <= 8 => Some((0..a).map(|i| (0..a * b).map(|q| if q / b == i { r[i] * s[q % b] * m } else { 0 }).collect()).collect()),
+        3 if a * b <= 8 => Some((0..a * b).map(|q| (0..a).map(|i| if q / b == i { r[i] * s[q % b] * m } else { 0 }).collect()).collect()),
+        4 if a == b && a >= 2 => Some((0..a).map(|i| (0..a).map(|j| if i == j { r[i] * m } else { (i == 0 && j == 1) as u64 }).collect()).collect()),
+        5 if a == b && a >= 2 => Some((0..a).map(|i| (0..a).map(|j| if j == i || j == i + 1 { r[i] * m } else { 0 }).collect()).collect()),
+        _ => None,
+    };
+    let Some(t) = t else {
+        mc::count("hcv_layout_not_applicable");
+        return;
+    };
+    let n: u64 = t.iter().map(|row| row.iter().sum::<u64>()).sum();
+    if n > nmax {
+        mc::count("hcv_layout_above_length_bound");
+        return;
+    }
+    let (ci, ki) = expand_table(&t, layout);
+    let (mt, mp) = (offset_map(&RENAMINGS[0].1, seed), offset_map(&RENAMINGS[1].1, seed));
+    let origin = || format!(" [{} with a={} b={} r={:?} s={:?} m={} layout {}; n={}]", PROD_KINDS[kind], a, b, r, s, m, layout, n);
+    let out = hcv_case(&ci, &ki, &mt, &mp, &[(2, 3)], false, &origin);
+    mc::count("hcv_structured_layouts");
+    if n > 64 {
+        mc::count("hcv_structured_n_above_64");
+    }
+    mc::nontrivial();
+    mc::outcome(digest_rounded(&out));
+    mc::describe(|| json!({"layout_kind": PROD_KINDS[kind], "a": a, "b": b, "row_weights": r, "col_weights": s, "multiplier": m, "n": n}));
+}
+
+impl Harness for C15 {
+    fn id(&self) -> &'static str {
+        "C15"
+    }
+
+    fn plan(&self, tier: Tier, seed: u64) -> Plan {
+        let t = tier.is_thorough();
+        let mut jobs: Vec<Job> = Vec::new();
+        let cap: u64 = if t { 3_000_000 } else { 300_000 };
+
+        // ---- length mismatch (one small job)
+        jobs.push(Job::new("mismatch", json!({"kind": "mismatch"})));
+
+        // ---- accuracy / precision / recall / F-beta: every pair of binary vectors
+        let bin_max = if t { 11 } else { 8 };
+        for n in 1..=bin_max {
+            push_split(&mut jobs, &format!("bin-n{}", n), json!({"kind": "bin", "n": n}), &vec![2; 2 * n], cap);
+        }
+        // accuracy on three classes
+        for n in 1..=(if t { 7 } else { 5 }) {
+            push_split(&mut jobs, &format!("acc3-n{}", n), json!({"kind": "acc3", "n": n, "seed": seed}), &vec![3; 2 * n], cap);
+        }
+        // every confusion-count vector (tp, fp, fn, tn) with sum n, three layouts
+        let conf_ns: Vec<usize> = if t { (1..=96).chain([100, 127, 128, 150, 199, 200]).collect() } else { (1..=40).chain([64]).collect() };
+        for n in &conf_ns {
+            jobs.push(Job::new(format!("conf-n{}", n), json!({"kind": "conf", "n": n})));
+        }
+
+        // ---- regression metrics
+        let reg_max = if t { 6 } else { 4 };
+        for n in 1..=reg_max {
+            for sc in 0..SCALES.len() {
+                push_split(&mut jobs, &format!("reg-n{}-s{}", n, SCALE_NAMES[sc]), json!({"kind": "reg", "n": n, "scale": sc, "seed": seed}), &vec![4; 2 * n], cap);
+            }
+        }
+        if !t {
+            push_split(&mut jobs, "reg-n5-s1", json!({"kind": "reg", "n": 5, "scale": 0, "seed": seed}), &vec![4; 10], cap);
+        }
+        for n in 1..=200usize {
+            jobs.push(Job::new(format!("regs-n{}", n), json!({"kind": "regs", "n": n})));
+        }
+
+        // ---- cluster scores: every pair of labellings
+        let hcv_plan: &[(usize, usize)] = if t { &[(2, 10), (3, 8), (4, 6), (5, 5)] } else { &[(2, 8), (3, 6), (4, 5)] };
+        for (k, nmax) in hcv_plan {
+            for n in 1..=*nmax {
+                // {0,1}^n is contained in {0,1,2}^n: skip what a larger alphabet already covers
+                let covered = hcv_plan.iter().any(|(k2, n2)| k2 > k && n <= *n2);
+                if covered {
+                    continue;
+                }
+                push_split(&mut jobs, &format!("hcv-k{}-n{}", k, n), json!({"kind": "hcv", "k": k, "n": n, "seed": seed}), &vec![*k; 2 * n], cap / 4);
+            }
+        }
+        // every contingency table over a small cell alphabet
+        let mut tabs: Vec<(usize, usize, Vec<u64>)> = vec![
+            (1, 1, vec![0, 1, 2, 5]),
+            (2, 2, vec![0, 1, 2]),
+            (2, 3, vec![0, 1, 2]),
+            (3, 2, vec![0, 1, 2]),
+            (3, 3, vec![0, 1, 2]),
+            (2, 2, vec![0, 1, 3, 8]),
+            (2, 3, vec![0, 1, 3, 8]),
+            (1, 8, vec![0, 1, 2]),
+            (8, 1, vec![0, 1, 2]),
+            (2, 8, vec![0, 1]),
+            (8, 2, vec![0, 1]),
+            (4, 4, vec![0, 1]),
+            (2, 2, vec![1, 20, 50, 99]),
+        ];
+        if t {
+            tabs.extend([
+                (3, 3, vec![0, 1, 3, 8]),
+                (3, 4, vec![0, 1, 2]),
+                (4, 3, vec![0, 1, 2]),
+                (2, 8, vec![0, 1, 2]),
+                (8, 2, vec![0, 1, 2]),
+                (3, 8, vec![0, 1]),
+                (8, 3, vec![0, 1]),
+                (4, 5, vec![0, 1]),
+                (5, 4, vec![0, 1]),
+                (2, 2, vec![0, 1, 2, 3, 5, 8, 13, 40]),
+                (2, 3, vec![0, 1, 2, 5, 17]),
+            ]);
+        }
+        for (a, b, cells) in &tabs {
+            let mut radices = vec![cells.len(); a * b];
+            radices.push(3);
+            push_split(&mut jobs, &format!("tab-{}x{}-c{}", a, b, cells.iter().map(|c| c.to_string()).collect::<Vec<_>>().join("_")), json!({"kind": "tab", "a": a, "b": b, "cells": cells, "seed": seed}), &radices, cap / 4);
+        }
+        // product / identical / refinement layouts, 1..8 classes each
+        let nmax = if t { 200 } else { 64 };
+        for a in 1..=8usize {
+            for b in 1..=8usize {
+                jobs.push(Job::new(format!("prod-{}x{}", a, b), json!({"kind": "prod", "a": a, "b": b, "nmax": nmax, "seed": seed})));
+            }
+        }
+
+        // ---- ROC-AUC
+        // every score vector over {0,1/4,1/2,1} x every label vector
+        let q4_max = if t { 9 } else { 7 };
+        for n in 2..=q4_max {
+            push_split(&mut jobs, &format!("auc-q4-n{}", n), json!({"kind": "auc", "n": n, "alpha": 0, "seed": seed, "f32": n <= 6}), &[vec![4; n], vec![2; n]].concat(), cap);
+        }
+        // {0,1,2}: n >= 8 reaches the partition code of the sort
+        let t3_max = if t { 11 } else { 8 };
+        for n in 8..=t3_max {
+            push_split(&mut jobs, &format!("auc-t3-n{}", n), json!({"kind": "auc", "n": n, "alpha": 1, "seed": seed, "f32": n <= 8}), &[vec![3; n], vec![2; n]].concat(), cap);
+        }
+        // every permutation of n distinct scores x every label vector
+        let perm_max = if t { 9 } else { 8 };
+        for n in 2..=perm_max {
+            let mut radices: Vec<usize> = (0..n).map(|i| n - i).collect();
+            radices.extend(vec![2; n]);
+            push_split(&mut jobs, &format!("auc-perm-n{}", n), json!({"kind": "aucperm", "n": n, "seed": seed, "f32": n <= 7}), &radices, cap);
+        }
+        // structured families up to n = 200
+        let aucs_ns: Vec<usize> = if t { (2..=200).collect() } else { (2..=40).chain([63, 64, 65, 100, 128, 200]).collect() };
+        for n in &aucs_ns {
+            jobs.push(Job::new(format!("aucs-n{}", n), json!({"kind": "aucs", "n": n})));
+        }
+
+        Plan {
+            jobs,
+            budget_s: if t { 2400 } else { 40 },
+            case_deadline_ms: 20_000,
+            floors: vec![
+                ("binary_pairs", 80_000),
+                ("binary_by_confusion_counts", 100_000),
+                ("binary_single_positive_or_negative", 1_000),
+                ("precision_undefined_0/0", 100),
+                ("fbeta_no_true_positive", 1_000),
+                ("accuracy_multiclass_pairs", 50_000),
+                ("mismatch_pairs", 400),
+                ("mismatch_rejected_with_size_message", 5_000),
+                ("auc_tied_scores", 1_000_000),
+                ("auc_constant_scores", 1_000),
+                ("auc_distinct_scores", 1_000_000),
+                ("auc_quicksort_partition_path", 1_000_000),
+                ("auc_single_positive_or_negative", 100_000),
+                ("regression_pairs", 300_000),
+                ("regression_structured", 60_000),
+                ("r2_negative", 10_000),
+                ("r2_undefined_constant_truth", 1_000),
+                ("hcv_label_pairs", 1_000_000),
+                ("hcv_tables", 100_000),
+                ("hcv_structured_layouts", 10_000),
+                ("hcv_single_class_true", 1_000),
+                ("hcv_single_class_pred", 1_000),
+                ("hcv_H(C|K)=0_multiclass", 10_000),
+                ("hcv_H(K|C)=0_multicluster", 10_000),
+                ("hcv_independent_multiclass", 5_000),
+                ("hcv_identical_partitions_multiclass", 3_000),
+                ("hcv_renamed", 1_000_000),
+            ],
+            bounds: json!({
+                "binary_metrics": format!("accuracy, precision, recall, F-beta (beta in 1, 1/2, 2), f64 and f32: every pair of binary vectors of length 1..{}; every confusion-count vector (tp,fp,fn,tn) with sum n for n in {:?} x 3 layouts", bin_max, summarize(&conf_ns)),
+                "accuracy_multiclass": format!("every pair over 3 label values, length 1..{}", if t { 7 } else { 5 }),
+                "length_mismatch": format!("every ordered pair of different lengths from {:?} x 3 fill patterns x 7 pairwise metrics x f64/f32", MISMATCH_LENGTHS),
+                "auc": format!("every (score vector, label vector with both classes): scores over {{0,1/4,1/2,1}} n=2..{}; over {{0,1,2}} n=8..{}; every permutation of n distinct scores n=2..{}; structured families (16 score families x 4 transforms x 7 label families with all parameters) for n in {}", q4_max, t3_max, perm_max, summarize(&aucs_ns)),
+                "regression": format!("mse, mae, r2, f64 and f32: every pair over {{0,1,-2,3}}^n, n=1..{} x scales {:?}{}; structured families (7 truth x 10 prediction x 5 scales) for every n=1..200", reg_max, SCALE_NAMES, if t { "" } else { " (+ n=5 at scale 1)" }),
+                "cluster_scores": format!("every pair of labellings over k values, (k, n<=): {:?}; every a x b contingency table over a cell alphabet x 3 sample orders: {:?}; product/identical/refinement/coarsening/near-identical layouts for every 1<=a,b<=8 x 4x4 weight families x multipliers {:?} x 3 orders, n<={}; every case also with exchanged arguments and under label renamings {:?}", hcv_plan, tabs, PROD_MULT, nmax, RENAMINGS.iter().map(|r| r.0).collect::<Vec<_>>()),
+                "seed_variant": {"score_affine": SEED_SCORE[(seed % 8) as usize], "regression_shift": SEED_REG_SHIFT[(seed % 8) as usize], "label_offset": SEED_LABEL_OFFSET[(seed % 8) as usize]},
+            }),
+        }
+    }
+
+    fn run(&self, job: &Job) {
+        match job.kind() {
+            "bin" => run_bin(job),
+            "conf" => run_conf(job),
+            "acc3" => run_acc3(job),
+            "mismatch" => run_mismatch(job),
+            "auc" => run_auc(job),
+            "aucperm" => run_aucperm(job),
+            "aucs" => run_aucs(job),
+            "reg" => run_reg(job),
+            "regs" => run_regs(job),
+            "hcv" => run_hcv(job),
+            "tab" => run_tab(job),
+            "prod" => run_prod(job),
+            other => panic!("unknown job kind {}", other),
+        }
+    }
+
+    fn rule(&self) -> String {
+        "one execution = one fully determined pair of vectors (and metric parameters) passed to the real metric functions; non-trivial = the pair is inside the documented domain of at least one metric and the result was compared with the definition; distinct = distinct digest of the values the library returned (entropy-based scores rounded to 1e-10)".into()
+    }
+
+    fn assumptions(&self) -> Vec<String> {
+        vec![
+            "the metrics draw no random numbers (no RNG seam on these paths); HashMap iteration order only perturbs the last ulps of the entropy sums, which the 1e-12 tolerance and the rounded digests absorb".into(),
+            "vectors are Vec<f64> / Vec<f32>; the ndarray / nalgebra vector bindings are exercised under C20".into(),
+            "0/0 cases (precision without predicted positives, recall / AUC without both classes, R^2 of a constant truth) are outside the documented domain: counted, not judged".into(),
+        ]
+    }
+}
+
+fn summarize(ns: &[usize]) -> String {
+    // compress a sorted list into ranges
+    let mut out: Vec<String> = Vec::new();
+    let mut i = 0;
+    while i < ns.len() {
+        let mut j = i;
+        while j + 1 < ns.len() && ns[j + 1] == ns[j] + 1 {
+            j += 1;
+        }
+        out.push(if j > i { format!("{}..{}", ns[i], ns[j]) } else { ns[i].to_string() });
+        i = j + 1;
+    }
+    out.join(",")
+}
+
 fn main() {
-    eprintln!("MACHINERY-ERROR: harness C15 not built yet");
-    std::process::exit(2);
+    if let Err(e) = mc_sc::check_rng_sites() {
+        eprintln!("MACHINERY-ERROR: {}", e);
+        std::process::exit(2);
+    }
+    mc::main(C15)
 }
